@@ -24,6 +24,10 @@ def run(rep, tier):
     # G9 (VCs, all arguments): the documented exceptions iff their conditions (single character / token, start < end by code
     # point, at least one character) and the exact bracket text handed to __Class.__init__ (every special character escaped)
     vcrun.run_functions(rep, G9, tier)
+    # G9's VCs (__process, __Class.__init__) use the assumed contracts of the text layer: their complete decisions F2 / F3 run here too
+    from . import c07
+    c07.f2(rep)
+    c07.f3(rep)
     # the precondition of __process / __Class.__init__ on the SHAPE of the bracket text (only \\ ^ [ ] - / are escaped): G9's
     # post-conditions give it for the parametrised constructors; for the named classes it is read off every instance here
     from ..common import native
